@@ -1,6 +1,9 @@
 """C01 -- see DESIGN.md section 5.  Proofs: coq/theories/Props/C01.v; correspondence
 and monitor: harness/exec_props.py (monitor family 1 of Exec/ExecTrace.v)."""
+import json
+
 from harness import exec_props as X
+from harness import c01_staged
 
 BIAS = {}
 TINY = {"cfgs": [{"throttle": 0, "attempts": 1, "dry": False}, {"throttle": 1, "attempts": 1, "dry": False}],
@@ -9,8 +12,14 @@ TINY = {"cfgs": [{"throttle": 0, "attempts": 1, "dry": False}, {"throttle": 1, "
 
 
 def run(ck):
-    return X.run_exec(ck, 1, BIAS, tiny=TINY)
+    # extra: the same property on graphs staged by the real Study.stage(), expected parents from the
+    # Coq expansion model (harness/c01_staged.py, Exec/ExecStaged.v)
+    return X.run_exec(ck, 1, BIAS, tiny=TINY, extra=c01_staged.run_extra)
 
 
 def replay(ck, path):
+    d = json.load(open(path))
+    d = d.get("case", d)
+    if isinstance(d, dict) and d.get("kind") == "c01-staged":
+        return c01_staged.replay_staged(ck, d)
     return X.replay_exec(ck, 1, path)
